@@ -256,6 +256,10 @@ func runAtomicWrite(c *Ctx, r *Reporter) {
 		if okMode {
 			okMode = !pathFromFailingEdge(chmod, rename)
 		}
+		// a failed Stat must not reach rename either: the temp file would keep the 0600 of os.CreateTemp
+		if okMode {
+			okMode = !pathFromFailingEdge(stat, rename)
+		}
 	}
 	r.Check(okMode, wq+"#W4:permission-bits", wpos, "the temp file receives the target's permission bits (Stat → Chmod) before the rename", "the temp file created by os.CreateTemp has mode 0600; without a Chmod to the target's Stat().Mode().Perm() before the rename, `evy fmt -w` silently changes the file's permissions")
 	// W5: callers
